@@ -56,7 +56,13 @@ def _one(args):
     prop, root, v = args
     tmp = make_copy(root)
     try:
-        why = apply_edits(tmp, v["edits"])
+        if v.get("patch"):
+            r = subprocess.run(["patch", "-p1", "-s", "-i", v["patch"]],
+                               cwd=tmp, capture_output=True, text=True)
+            why = None if r.returncode == 0 else (
+                "patch does not apply: " + (r.stdout + r.stderr)[-200:])
+        else:
+            why = apply_edits(tmp, v["edits"])
         if why:
             return dict(v, status="skipped", detail=why)
         ev = os.path.join(tmp, "ev")
@@ -75,6 +81,10 @@ def _one(args):
             ok = p.returncode == 1 and (
                 not v.get("rule") or any(r.startswith(v["rule"])
                                          for r in rules))
+        elif v["expect"] == "nofire":
+            # a behaviour-preserving refactoring: no violation may be
+            # reported (no verdict -- exit 2 -- is recorded, not a failure)
+            ok = p.returncode != 1
         else:
             ok = p.returncode == 0
         return dict(v, status="ok" if ok else "FAILED", exit=p.returncode,
@@ -86,6 +96,17 @@ def _one(args):
 def run_selftests(prop, root, jobs=16, run=None):
     from selftest import catalog
     variants = [v for v in catalog.VARIANTS if v["prop"] == prop]
+    # the kept changes of independent sub-agents: every seeded change of this
+    # property must fire, no behaviour-preserving refactoring may
+    import glob
+    for d in sorted(glob.glob(os.path.join(HERE, "seeded", prop + "-*"))):
+        pf = os.path.join(d, "patch.diff")
+        if os.path.exists(pf):
+            variants.append({"id": "seeded:" + os.path.basename(d),
+                             "prop": prop, "expect": "fire", "patch": pf})
+    for pf in sorted(glob.glob(os.path.join(HERE, "benign", "*.diff"))):
+        variants.append({"id": "benign:" + os.path.basename(pf)[:-5],
+                         "prop": prop, "expect": "nofire", "patch": pf})
     t0 = time.time()
     if not variants:
         print("%s thorough: no self-test variants registered" % prop)
@@ -138,7 +159,10 @@ def run_selftests(prop, root, jobs=16, run=None):
             "variants": len(results),
             "must_fire": sum(1 for r in results if r["expect"] == "fire"),
             "must_stay_silent": sum(1 for r in results
-                                    if r["expect"] == "silent"),
+                                    if r["expect"] in ("silent", "nofire")),
+            "no_verdict_on_refactoring": [
+                r["id"] for r in results
+                if r["expect"] == "nofire" and r.get("exit") == 2],
             "ok": len(results) - len(failed) - len(skipped),
             "failed": [r["id"] for r in failed],
             "skipped": [r["id"] for r in skipped],
